@@ -739,6 +739,257 @@ func raceReplay(r *hx.Rng) {
 	}
 }
 
+// ---------- gated schedules vs the locked fine-grained semantics (Coq: lstep / check_sched) ----------
+type gate struct{ hit, resume chan struct{} }
+
+func newGate() *gate { return &gate{make(chan struct{}), make(chan struct{})} }
+
+// schedDB parks the calling goroutine at chosen points inside the pool's methods: after Has(key) (add's
+// existence check, pool lock held), after a batch Write (MarkExecuted's records written, removal not yet
+// done), before Delete(key) (UnMarkExecuted about to process that transaction).
+type schedDB struct {
+	db.Database
+	mu        sync.Mutex
+	hasGate   map[string]*gate
+	delGate   map[string]*gate
+	writeGate *gate
+}
+
+func (d *schedDB) take(m map[string]*gate, k []byte) *gate {
+	d.mu.Lock()
+	defer d.mu.Unlock()
+	g := m[string(k)]
+	delete(m, string(k))
+	return g
+}
+func (d *schedDB) Has(k []byte) (bool, error) {
+	r, err := d.Database.Has(k)
+	if g := d.take(d.hasGate, k); g != nil {
+		g.hit <- struct{}{}
+		<-g.resume
+	}
+	return r, err
+}
+func (d *schedDB) Delete(k []byte) error {
+	if g := d.take(d.delGate, k); g != nil {
+		g.hit <- struct{}{}
+		<-g.resume
+	}
+	return d.Database.Delete(k)
+}
+func (d *schedDB) NewBatch() db.Batch { return &schedBatch{d.Database.NewBatch(), d} }
+
+type schedBatch struct {
+	db.Batch
+	d *schedDB
+}
+
+func (b *schedBatch) Write() error {
+	err := b.Batch.Write()
+	b.d.mu.Lock()
+	g := b.d.writeGate
+	b.d.writeGate = nil
+	b.d.mu.Unlock()
+	if g != nil {
+		g.hit <- struct{}{}
+		<-g.resume
+	}
+	return err
+}
+
+type schedCase struct {
+	pool  *service.TxPool
+	d     *schedDB
+	tbl   []*types.Transaction
+	steps []string
+	js    []interface{}
+	name  string
+}
+
+func newSchedCase(name string) *schedCase {
+	mem, _ := db.NewMemDatabase()
+	d := &schedDB{Database: mem, hasGate: map[string]*gate{}, delGate: map[string]*gate{}}
+	return &schedCase{pool: service.VerifNewTxPool(d, poolSize), d: d, name: name}
+}
+
+func (c *schedCase) tx(r *hx.Rng, src string, nonce uint64) int {
+	t := &types.Transaction{Source: src, Target: src, Nonce: nonce, Type: 188, ChainId: "9500"}
+	copy(t.Hash[:], r.Bytes(32))
+	c.tbl = append(c.tbl, t)
+	return len(c.tbl) - 1
+}
+
+// record one model step; observe = the pool is at a stable point
+func (c *schedCase) step(term string, observe bool) {
+	obs := "None"
+	var jo interface{}
+	if observe {
+		var rc, ex []int
+		for _, t := range c.pool.GetReceived() {
+			for i, u := range c.tbl {
+				if u == t {
+					rc = append(rc, i)
+				}
+			}
+		}
+		for i, u := range c.tbl {
+			if c.pool.GetExecuted(u.Hash) != nil {
+				ex = append(ex, i)
+			}
+		}
+		obs = fmt.Sprintf("Some (%s, %s)", coqIdx(rc), coqIdx(ex))
+		jo = map[string]interface{}{"pending": rc, "executed": ex}
+	}
+	c.steps = append(c.steps, "("+term+", "+obs+")")
+	c.js = append(c.js, map[string]interface{}{"step": term, "observed": jo})
+}
+
+func (c *schedCase) start(f func()) chan struct{} {
+	done := make(chan struct{})
+	go func() { f(); close(done) }()
+	return done
+}
+
+// "gate": parked at g; "done": the method returned; "blocked": neither within the grace period
+// (a long grace period where progress is expected, a short one where blocking is expected: a slow machine
+// can then only hide a missing exclusion, never report a false one)
+func waitFor(g *gate, done chan struct{}) string {
+	d := 250 * time.Millisecond
+	if g != nil {
+		d = 30 * time.Second
+	}
+	var hit chan struct{}
+	if g != nil {
+		hit = g.hit
+	}
+	select {
+	case <-hit:
+		return "gate"
+	case <-done:
+		return "done"
+	case <-time.After(d):
+		return "blocked"
+	}
+}
+
+func (c *schedCase) expect(what, got, want string) {
+	if got != want {
+		slug := "not-excluded"
+		if want == "gate" {
+			slug = "gate-not-reached"
+		}
+		violate("C17/schedules:"+c.name+":"+slug, fmt.Sprintf("schedule %s: %s is %q, the locked pool makes it %q", c.name, what, got, want), map[string]interface{}{"schedule": c.name, "steps": c.js})
+	}
+}
+
+func (c *schedCase) markNow(txIdx []int) {
+	var rs types.Receipts
+	var txs []*types.Transaction
+	for _, i := range txIdx {
+		txs = append(txs, c.tbl[i])
+		rs = append(rs, &types.Receipt{TxHash: c.tbl[i].Hash})
+	}
+	c.pool.MarkExecuted(&types.BlockHeader{Height: 1}, rs, txs, nil)
+}
+
+func (c *schedCase) finish(cs *hx.Cases) {
+	tb := make([]string, len(c.tbl))
+	for i, t := range c.tbl {
+		tb[i] = coqTx(t)
+	}
+	cs.Add(fmt.Sprintf("(%d, [%s],\n  [%s])", poolSize, strings.Join(tb, "; "), strings.Join(c.steps, ";\n   ")), map[string]interface{}{"schedule": c.name, "steps": c.js})
+	res.Count("schedule:"+c.name, c.name+strings.Join(c.steps, ";"), true)
+}
+
+// T1: add(t) parked after its check; MarkExecuted([t]) must wait; push; then the mark runs.
+func schedT1(r *hx.Rng, cs *hx.Cases) {
+	c := newSchedCase("add-check|mark|push")
+	src := "0x" + hex.EncodeToString(r.Bytes(20))
+	t := c.tx(r, src, 0)
+	g := newGate()
+	c.d.hasGate[string(c.tbl[t].Hash.Bytes())] = g
+	a := c.start(func() { c.pool.AddTransaction(c.tbl[t]) })
+	c.expect("add reaches its existence check", waitFor(g, a), "gate")
+	c.step(fmt.Sprintf("SLCheck 1 %d", t), true)
+	b := c.start(func() { c.markNow([]int{t}) })
+	c.expect("MarkExecuted while an add is between check and push", waitFor(nil, b), "blocked")
+	c.step(fmt.Sprintf("SLMarkW 2 [%d] []", t), true)
+	close(g.resume)
+	<-a
+	<-b
+	c.step("SLPush 1", false)
+	c.step(fmt.Sprintf("SLMarkW 2 [%d] []", t), false)
+	c.step("SLMarkR 2", true)
+	c.finish(cs)
+}
+
+// T2: t pending; MarkExecuted([t]) parked after its record write; adds must wait; lock-free reads and an
+// expiry tick run; remove; the adds run (t refused, u admitted).
+func schedT2(r *hx.Rng, cs *hx.Cases) {
+	c := newSchedCase("mark-write|add|mark-remove")
+	src := "0x" + hex.EncodeToString(r.Bytes(20))
+	t := c.tx(r, src, 0)
+	u := c.tx(r, src, 1)
+	c.pool.AddTransaction(c.tbl[t])
+	c.step(fmt.Sprintf("SLAdd %d", t), true)
+	g := newGate()
+	c.d.writeGate = g
+	b := c.start(func() { c.markNow([]int{t}) })
+	c.expect("MarkExecuted reaches its record write", waitFor(g, b), "gate")
+	c.step(fmt.Sprintf("SLMarkW 2 [%d] []", t), true)
+	var okT, okU bool
+	a1 := c.start(func() { okU, _ = c.pool.AddTransaction(c.tbl[u]) })
+	c.expect("AddTransaction(u) during a MarkExecuted", waitFor(nil, a1), "blocked")
+	c.step(fmt.Sprintf("SLCheck 1 %d", u), true)
+	c.pool.PackForCast(2, mkState(nil))
+	c.step("SLPack", true)
+	c.pool.VerifGrowRing()
+	c.step("SLTick []", true)
+	close(g.resume)
+	<-b
+	<-a1
+	c.step("SLMarkR 2", false)
+	c.step(fmt.Sprintf("SLCheck 1 %d", u), false)
+	c.step("SLPush 1", true)
+	okT, _ = c.pool.AddTransaction(c.tbl[t])
+	c.step(fmt.Sprintf("SLAdd %d", t), true)
+	if okT || !okU {
+		violate("C17/schedules:"+c.name+":results", fmt.Sprintf("add(executed t)=%v add(new u)=%v", okT, okU), map[string]interface{}{"steps": c.js})
+	}
+	c.finish(cs)
+}
+
+// T3: a block [t1, t2] executed; UnMarkExecuted parked before it processes t2; an add must wait; the
+// rest of the unmark; the add.
+func schedT3(r *hx.Rng, cs *hx.Cases) {
+	c := newSchedCase("unmark-first|add|unmark-rest")
+	src := "0x" + hex.EncodeToString(r.Bytes(20))
+	t1 := c.tx(r, src, 0)
+	t2 := c.tx(r, src, 1)
+	u := c.tx(r, src, 2)
+	c.pool.AddTransaction(c.tbl[t1])
+	c.step(fmt.Sprintf("SLAdd %d", t1), false)
+	c.markNow([]int{t1, t2})
+	c.step(fmt.Sprintf("SLMark [%d; %d] []", t1, t2), true)
+	g := newGate()
+	c.d.delGate[string(c.tbl[t2].Hash.Bytes())] = g
+	b := c.start(func() {
+		c.pool.UnMarkExecuted(&types.Block{Header: &types.BlockHeader{Height: 1}, Transactions: []*types.Transaction{c.tbl[t1], c.tbl[t2]}})
+	})
+	c.expect("UnMarkExecuted reaches its second transaction", waitFor(g, b), "gate")
+	c.step(fmt.Sprintf("SLUnmarkB 2 [%d; %d] []", t1, t2), true)
+	a := c.start(func() { c.pool.AddTransaction(c.tbl[u]) })
+	c.expect("AddTransaction(u) during an UnMarkExecuted", waitFor(nil, a), "blocked")
+	c.step(fmt.Sprintf("SLCheck 1 %d", u), true)
+	close(g.resume)
+	<-b
+	<-a
+	c.step("SLUnmarkN 2", false)
+	c.step(fmt.Sprintf("SLCheck 1 %d", u), false)
+	c.step("SLPush 1", true)
+	c.finish(cs)
+}
+
 // free-running goroutines on the LevelDB-backed store: how often does the race show without help?
 func soak(r *hx.Rng, rounds int) {
 	setFlags(flags{true, true, true, true})
@@ -833,6 +1084,18 @@ func main() {
 		oneCase(r.Fork(), cs, a.N+i, true)
 	}
 	cs.Close()
+	sc := hx.NewCasesNamed(a.Out, "sched", "From Coq Require Import NArith.\nFrom V.C17 Require Import Model Harness.\nOpen Scope N_scope.", "N * list tx * list (slop * option (list N * list N))", "check_sched", 100)
+	setFlags(flags{true, true, true, true})
+	nsched := 2
+	if a.Tier == "thorough" {
+		nsched = 10
+	}
+	for i := 0; i < nsched; i++ {
+		schedT1(r.Fork(), sc)
+		schedT2(r.Fork(), sc)
+		schedT3(r.Fork(), sc)
+	}
+	sc.Close()
 	raceReplay(r.Fork())
 	capacityReplay(r.Fork())
 	if a.Tier == "thorough" {
@@ -841,7 +1104,7 @@ func main() {
 		soak(r.Fork(), 200)
 	}
 	res.Note(fmt.Sprintf("txCountPerBlock=%d rcvTxPoolSize=%d (read from the service package); evicted-cache LRU bound (1000) never reached in a case", perBlock, poolSize))
-	res.ModelCases = cs.Total()
+	res.ModelCases = cs.Total() + sc.Total()
 	res.Write(a.Out)
 	keys := make([]string, 0)
 	for k := range res.Histogram {
